@@ -1,5 +1,6 @@
 mod adapter;
 mod beh;
+mod columns;
 mod common;
 mod dumpcheck;
 mod extra;
@@ -101,6 +102,30 @@ fn main() {
             #[cfg(not(feature = "parallel"))]
             let res: Vec<serde_json::Value> = reqs.iter().map(extra::pst13params).collect();
             for r in res {
+                println!("{}", r);
+            }
+        }
+        Some("columns") => {
+            install_quiet_panic_hook();
+            let uni: Vec<usize> = args.get(2).map(|s| s.split(',').filter_map(|x| x.parse().ok()).collect()).unwrap_or_default();
+            let nvs: Vec<usize> = args.get(3).map(|s| s.split(',').filter_map(|x| x.parse().ok()).collect()).unwrap_or_default();
+            for r in columns::columns(&uni, &nvs) {
+                println!("{}", r);
+            }
+        }
+        Some("calct") => {
+            install_quiet_panic_hook();
+            let stdin = std::io::stdin();
+            let cases: Vec<serde_json::Value> = stdin.lock().lines().map(|l| l.unwrap()).filter(|l| !l.trim().is_empty())
+                .map(|l| serde_json::from_str(&l).expect("bad case")).collect();
+            for r in columns::calct(&cases) {
+                println!("{}", r);
+            }
+        }
+        Some("encoding") => {
+            install_quiet_panic_hook();
+            let n: usize = args.get(2).and_then(|s| s.parse().ok()).unwrap_or(20);
+            for r in columns::encoding(n) {
                 println!("{}", r);
             }
         }
